@@ -3,6 +3,7 @@ package c02
 import (
 	"bytes"
 	"context"
+	"math/big"
 	"testing"
 
 	"github.com/iotaledger/hive.go/serializer/v2"
@@ -58,5 +59,106 @@ func TestRegressionJSONWrongShape(t *testing.T) {
 		if p := catch(func() { _ = api.JSONDecode(context.Background(), []byte(doc), &s{}) }); p != nil {
 			t.Fatalf("JSONDecode(%s) panicked: %v", doc, p)
 		}
+	}
+}
+
+type regU64Prefix struct {
+	S string   `serix:",lenPrefix=uint64"`
+	L []uint16 `serix:",lenPrefix=uint64"`
+}
+
+// serix offers the uint64 length prefix, but Serializer/Deserializer had no case for it: Decode panicked for every input.
+func TestRegressionUint64LengthPrefix(t *testing.T) {
+	api := serix.NewAPI()
+	ctx := context.Background()
+	in := &regU64Prefix{S: "ab", L: []uint16{1, 2, 3}}
+	b, err := api.Encode(ctx, in)
+	if err != nil {
+		t.Fatalf("Encode with lenPrefix=uint64: %v", err)
+	}
+	out := &regU64Prefix{}
+	if n, err := api.Decode(ctx, b, out); err != nil || n != len(b) || out.S != "ab" || len(out.L) != 3 {
+		t.Fatalf("Decode of %x: n=%d err=%v value=%+v", b, n, err, out)
+	}
+	for _, hostile := range [][]byte{{}, {1, 2, 3}, {0xff, 0xff, 0xff, 0xff, 0xff, 0xff, 0xff, 0xff}, {0, 0, 0, 0, 0, 0, 0, 0x80, 1}, {0, 0, 0, 0, 0, 0, 0, 0x40}} {
+		if p := catch(func() { _, _ = api.Decode(ctx, hostile, &regU64Prefix{}) }); p != nil {
+			t.Fatalf("Decode of %x panicked: %v", hostile, p)
+		}
+	}
+}
+
+type regKey interface{ regKey() }
+type regKeyPlain struct {
+	V uint8 `serix:""`
+}
+type regKeySlice struct {
+	L []byte `serix:",lenPrefix=uint8"`
+}
+
+func (regKeyPlain) regKey() {}
+func (regKeySlice) regKey() {}
+
+type regIfaceKeyMap struct {
+	M map[regKey]uint8 `serix:",lenPrefix=uint8"`
+}
+
+// the type code in the input selects an implementation of the key interface that cannot be hashed: MapIndex panicked.
+func TestRegressionUnhashableInterfaceMapKey(t *testing.T) {
+	api := serix.NewAPI()
+	if err := api.RegisterTypeSettings(regKeyPlain{}, serix.TypeSettings{}.WithObjectType(uint8(0))); err != nil {
+		t.Fatal(err)
+	}
+	if err := api.RegisterTypeSettings(regKeySlice{}, serix.TypeSettings{}.WithObjectType(uint8(1))); err != nil {
+		t.Fatal(err)
+	}
+	if err := api.RegisterInterfaceObjects((*regKey)(nil), regKeyPlain{}, regKeySlice{}); err != nil {
+		t.Fatal(err)
+	}
+	var err error
+	if p := catch(func() { _, err = api.Decode(context.Background(), []byte{1, 1, 1, 0xaa, 9}, &regIfaceKeyMap{}) }); p != nil {
+		t.Fatalf("Decode panicked: %v", p)
+	}
+	if err == nil {
+		t.Fatal("Decode accepted a map entry whose key cannot be a map key")
+	}
+}
+
+type regNode struct {
+	Children []*regNode `serix:",lenPrefix=uint8"`
+}
+
+// one input byte per nesting level of a recursive type: two million levels ended in a fatal stack overflow.
+func TestRegressionDeepNestingIsRefused(t *testing.T) {
+	api := serix.NewAPI()
+	ctx := context.Background()
+	shallow := append(bytes.Repeat([]byte{1}, 100), 0)
+	if n, err := api.Decode(ctx, shallow, &regNode{}); err != nil || n != len(shallow) {
+		t.Fatalf("100 nesting levels: n=%d err=%v", n, err)
+	}
+	deep := append(bytes.Repeat([]byte{1}, 2_000_000), 0)
+	if _, err := api.Decode(ctx, deep, &regNode{}); err == nil {
+		t.Fatal("two million nesting levels were decoded")
+	}
+}
+
+// Decode with a *big.Int as the destination itself panicked ("Addr of unaddressable value") for every input.
+func TestRegressionDecodeIntoBigInt(t *testing.T) {
+	api := serix.NewAPI()
+	ctx := context.Background()
+	want := new(big.Int).Lsh(big.NewInt(77), 200)
+	b, err := api.Encode(ctx, want)
+	if err != nil {
+		t.Fatal(err)
+	}
+	got := new(big.Int)
+	var n int
+	if p := catch(func() { n, err = api.Decode(ctx, b, got) }); p != nil {
+		t.Fatalf("Decode into new(big.Int) panicked: %v", p)
+	}
+	if err != nil || n != len(b) || got.Cmp(want) != 0 {
+		t.Fatalf("Decode into new(big.Int): n=%d err=%v got %v want %v", n, err, got, want)
+	}
+	if p := catch(func() { _, err = api.Decode(ctx, []byte{1, 2}, new(big.Int)) }); p != nil || err == nil {
+		t.Fatalf("Decode of a short input into new(big.Int): panic=%v err=%v", p, err)
 	}
 }
